@@ -74,8 +74,8 @@ class ASTWalker:
             child_nodes = [_def for _def in definitions if _def.__class__.__name__ == "AssignmentStmt"]
 
         for child_node in child_nodes:
-            # The '__mypy-replace' name is a mypy placeholer which we don't want to parse.
-            if getattr(child_node, "name", "") == "__mypy-replace":  # pragma: no cover
+            # Names like '__mypy-replace' or '__mypy-post_init' are mypy placeholers which we don't want to parse.
+            if getattr(child_node, "name", "").startswith("__mypy-"):  # pragma: no cover
                 continue
 
             self.__walk(child_node, visited_nodes)
